@@ -11,6 +11,8 @@
 (*          default (none / one)  x  EVERY presence pattern over the       *)
 (*          tagged sources (+ the query string under the form name, for    *)
 (*          the documented form->query fallback)  x  (1 systematic text    *)
+(*          assignment "E" in which the winning source is PRESENT BUT      *)
+(*          EMPTY (header/cookie/query/form only)  +  1 systematic text    *)
 (*          assignment in which neighbouring present sources carry         *)
 (*          different values + NRand seeded random assignments, which      *)
 (*          also put values into sources the field does NOT name)          *)
@@ -33,7 +35,9 @@ R4(a, b, c, d) == M(M(R3(a, b, c) + d) + d * 7)
 Pick(seq, h) == seq[(h % Len(seq)) + 1]
 
 KindSeq == <<"bool", "int8", "int", "uint8", "uint", "float64", "string", "*int", "*string", "[]int", "[]string">>
-TextSeq == <<"0", "1", "-1", "300", "1.5", "true", "x">>            \* "" is never generated (unconstrained)
+TextSeq == <<"0", "1", "-1", "300", "1.5", "true", "x">>
+TextSeqE == TextSeq \o <<"">>       \* form, query, cookie, header can carry a present-but-empty value; path / json never do (unconstrained)
+EmptyOK(i) == i \in 2 .. 5
 \* ok texts per base kind as a rotation; neighbours convert to different values
 Rot(b) == CASE b = "bool"    -> <<"0", "1">>
             [] b = "int8"    -> <<"1", "0", "-1">>
@@ -82,16 +86,19 @@ SingleReq(n, f, m, p, v) ==
     LET b    == Base(f.kind)
         rot  == Rot(b)
         ord(i) == Cardinality({j \in 1 .. i : InMask(p, j)})                \* i is the ord(i)-th present source
-        extra(i) == v > 0 /\ i \in {1, 3, 4, 5} /\ ~InMask(Relevant(m), i) /\ R4(n, p, v, 10 + i) % 4 = 0
-        one(i) == IF v = 0 THEN rot[((ord(i) + p) % Len(rot)) + 1]
+        extra(i) == v > 0 /\ v <= NRand /\ i \in {1, 3, 4, 5} /\ ~InMask(Relevant(m), i) /\ R4(n, p, v, 10 + i) % 4 = 0
+        sysv == v = 0 \/ v = NRand + 1                                       \* systematic variants (0, and E = NRand + 1)
+        one(i) == IF v = NRand + 1 /\ ord(i) = 1 THEN ""                     \* E: the highest-priority present source is EMPTY
+                  ELSE IF sysv THEN rot[((ord(i) + p) % Len(rot)) + 1]
                   ELSE IF i = 6 THEN Pick(rot, R4(n, p, v, 21))
+                  ELSE IF EmptyOK(i) THEN Pick(TextSeqE, R4(n, p, v, 30 + i))
                   ELSE Pick(TextSeq, R4(n, p, v, 30 + i))
-        two(i) == IF v > 0 /\ IsSlice(f.kind) /\ (MultiOK(i) \/ i = 6) /\ R4(n, p, v, 40 + i) % 3 = 0
-                  THEN <<one(i), IF i = 6 THEN Pick(rot, R4(n, p, v, 50)) ELSE Pick(TextSeq, R4(n, p, v, 50 + i))>>
+        two(i) == IF ~sysv /\ IsSlice(f.kind) /\ (MultiOK(i) \/ i = 6) /\ R4(n, p, v, 40 + i) % 3 = 0
+                  THEN <<one(i), IF i = 6 THEN Pick(rot, R4(n, p, v, 50)) ELSE Pick(TextSeqE, R4(n, p, v, 50 + i))>>
                   ELSE <<one(i)>>
         ent(i) == Entry(i, TagName(Priority[i], "a", 1), two(i), IF i = 6 THEN JsonLit(f.kind, two(i)) ELSE "")
     IN  [body |-> IF InMask(p, 6) THEN "json" ELSE IF InMask(p, 2) THEN "form"
-                  ELSE IF v = 0 THEN "none"
+                  ELSE IF v = 0 \/ v = NRand + 1 THEN "none"
                   ELSE IF R3(n, 0, 3) % 4 = 0 THEN Pick(<<"none", "form", "json", "none">>, R4(n, p, v, 1))   \* a JSON body costs a sonic
                   ELSE Pick(<<"none", "form", "none", "none">>, R4(n, p, v, 1)),                               \* compilation per fresh type
          vals |-> SelectSeq([i \in 1 .. 6 |-> ent(i)], LAMBDA e : InMask(p, Rank(e.src)) \/ extra(Rank(e.src)))]
@@ -107,7 +114,13 @@ SingleCases(n) ==
     LET sp   == SingleSeq[n]
         f    == FieldOf(sp)
         ps   == SetToSeq(Patterns(sp[2]))
-        all  == [k \in 1 .. Len(ps) * (NRand + 1) |-> SingleReq(n, f, sp[2], ps[((k - 1) \div (NRand + 1)) + 1], (k - 1) % (NRand + 1))]
+        nv   == NRand + 2                                                   \* variants per pattern: 0, 1..NRand, E
+        pat(k) == ps[((k - 1) \div nv) + 1]
+        var(k) == (k - 1) % nv
+        \* E applies when the first present source is one that can be empty
+        eok(p) == p # 0 /\ EmptyOK(CHOOSE i \in 1 .. 6 : InMask(p, i) /\ \A j \in 1 .. i - 1 : ~InMask(p, j))
+        idx  == SelectSeq([k \in 1 .. Len(ps) * nv |-> k], LAMBDA k : var(k) <= NRand \/ eok(pat(k)))
+        all  == [x \in 1 .. Len(idx) |-> SingleReq(n, f, sp[2], pat(idx[x]), var(idx[x]))]
         norm == SelectSeq(all, LAMBDA rq : ~Shadow(f, rq))
         shad == SelectSeq(all, LAMBDA rq : Shadow(f, rq))
         mk(reqs, sh) == [kind |-> "single", shadow |-> sh, conc |-> FALSE, types |-> <<[fields |-> <<f>>]>>,
@@ -133,6 +146,7 @@ RandField(c, ti, i) ==
 RandType(c, ti, nf) == [fields |-> [i \in 1 .. nf |-> RandField(c, ti, i)]]
 
 BiasText(h) == IF h % 10 < 7 THEN Pick(<<"0", "1">>, h \div 10) ELSE Pick(TextSeq, h \div 10)
+BiasTextE(h, i) == IF EmptyOK(i) /\ h % 10 = 9 THEN "" ELSE BiasText(h)
 
 \* request q of case c over the names a/b (header A/B) and the json names of the given types
 RandReq(c, q, types) ==
@@ -140,8 +154,8 @@ RandReq(c, q, types) ==
         nmOf(i, k) == TagName(Priority[i], IF k = 1 THEN "a" ELSE "b", 0)
         pres(i, k) == (i # 2 \/ body = "form") /\ R4(c, 1000 + q, 2, 2 * i + k) % 2 = 0
         tx(i, k) == IF MultiOK(i) /\ R4(c, 1000 + q, 3, 2 * i + k) % 4 = 0
-                    THEN <<BiasText(R4(c, 1000 + q, 4, 2 * i + k)), BiasText(R4(c, 1000 + q, 5, 2 * i + k))>>
-                    ELSE <<BiasText(R4(c, 1000 + q, 4, 2 * i + k))>>
+                    THEN <<BiasTextE(R4(c, 1000 + q, 4, 2 * i + k), i), BiasTextE(R4(c, 1000 + q, 5, 2 * i + k), i)>>
+                    ELSE <<BiasTextE(R4(c, 1000 + q, 4, 2 * i + k), i)>>
         plain == SelectSeq([x \in 1 .. 10 |-> LET i == ((x - 1) \div 2) + 1 k == ((x - 1) % 2) + 1
                                               IN [e |-> Entry(i, nmOf(i, k), tx(i, k), ""), on |-> pres(i, k)]],
                            LAMBDA y : y.on)
